@@ -731,6 +731,131 @@ func (a *c08LB) cellField(cell *ssa.Alloc, fld int, fn *ssa.Function, depth int)
 	return lb
 }
 
+// cellFieldAt: lower bound of field fld of a local struct cell as read by instruction at (a load of the field or of
+// the whole struct): minimum over the definitions (field stores, whole-struct stores) that reach the read without an
+// intervening definition, each refined by the tests on reads of the same field that every definition-free path from
+// that definition to the read has to pass. Falls back to the flow-insensitive cellField.
+func (a *c08LB) cellFieldAt(cell *ssa.Alloc, fld int, fn *ssa.Function, at ssa.Instruction, depth int) int64 {
+	if depth > c08MaxDepth {
+		return -c08NoBound
+	}
+	type def struct {
+		st    *ssa.Store
+		whole bool
+	}
+	var defs []def
+	blocked := map[ssa.Instruction]bool{}
+	loads := map[ssa.Value]bool{} // reads of this field
+	escapes := false
+	for _, r := range *cell.Referrers() {
+		switch x := r.(type) {
+		case *ssa.Store:
+			if x.Addr == ssa.Value(cell) {
+				defs = append(defs, def{x, true})
+				blocked[x] = true
+			} else {
+				escapes = true
+			}
+		case *ssa.FieldAddr:
+			for _, rr := range *x.Referrers() {
+				switch y := rr.(type) {
+				case *ssa.Store:
+					if y.Addr == ssa.Value(x) {
+						if x.Field == fld {
+							defs = append(defs, def{y, false})
+							blocked[y] = true
+						}
+					} else {
+						escapes = true
+					}
+				case *ssa.UnOp:
+					if x.Field == fld {
+						loads[y] = true
+					}
+				case *ssa.DebugRef:
+				default:
+					escapes = true
+				}
+			}
+		case *ssa.UnOp:
+		case *ssa.DebugRef:
+		default:
+			escapes = true
+		}
+	}
+	domWhole := false
+	for _, d := range defs {
+		if d.whole && an.Dominates(d.st, at) {
+			domWhole = true
+		}
+	}
+	if escapes || !domWhole || at.Parent() != fn {
+		return a.cellField(cell, fld, fn, depth)
+	}
+	rels := an.XBEdgeRels(fn)
+	lb := -c08NoBound
+	n := 0
+	for _, d := range defs {
+		if !an.Reaches(fn, d.st, at, nil, blocked) {
+			continue
+		}
+		n++
+		var l int64
+		if d.whole {
+			l = a.structField(d.st.Val, fld, fn, d.st, depth+1)
+		} else {
+			l = a.at(d.st.Val, fn, d.st, nil, depth+1)
+		}
+		if l != -c08NoBound && l != c08NoBound {
+			// tests on a read of the field that sees only this definition and that every definition-free path passes
+			var facts []an.XBRel
+			for e, r := range rels {
+				x, y := r.X, r.Y
+				var ld ssa.Value
+				if loads[x] {
+					ld = x
+				} else if loads[y] {
+					ld = y
+				} else {
+					continue
+				}
+				li, ok := ld.(ssa.Instruction)
+				if !ok || !an.Dominates(d.st, li) {
+					continue
+				}
+				sole := true
+				for _, o := range defs {
+					if o.st != d.st && an.Reaches(fn, o.st, li, nil, blocked) {
+						sole = false
+					}
+				}
+				if !sole {
+					continue
+				}
+				cut := an.EdgeSet{}
+				cut[e] = true
+				if an.Reaches(fn, d.st, at, cut, blocked) {
+					continue
+				}
+				// rewrite the relation onto a placeholder (the cell) standing for the value read at `at`
+				if ld == x {
+					facts = append(facts, an.XBRel{X: cell, Y: y, Op: r.Op})
+				} else {
+					facts = append(facts, an.XBRel{X: x, Y: cell, Op: r.Op})
+				}
+			}
+			l = a.refine(cell, l, facts)
+		}
+		if l < lb {
+			lb = l
+		}
+	}
+	if n == 0 || lb == -c08NoBound {
+		return a.cellField(cell, fld, fn, depth)
+	}
+	return lb
+}
+
 // structField: lower bound of field fld of a struct value.
 func (a *c08LB) structField(v ssa.Value, fld int, fn *ssa.Function, site ssa.Instruction, depth int) int64 {
 	if depth > c08MaxDepth {
@@ -825,7 +950,7 @@ func (a *c08LB) atSlot(sl an.XBSlot, depth int) int64 {
 			if sl.Field >= 0 && sl.Idx < len(call.Common().Args) {
 				if u, ok := call.Common().Args[sl.Idx].(*ssa.UnOp); ok && u.Op == token.MUL {
 					if cell, ok := u.X.(*ssa.Alloc); ok {
-						l = a.cellField(cell, sl.Field, call.Parent(), depth+1)
+						l = a.cellFieldAt(cell, sl.Field, call.Parent(), u, depth+1)
 					}
 				}
 			}
@@ -940,7 +1065,7 @@ func (a *c08LB) at(v ssa.Value, fn *ssa.Function, site ssa.Instruction, extra *a
 			// field of a local struct variable (e.g. the result of the depth inference kept in a variable)
 			if fa, ok := x.X.(*ssa.FieldAddr); ok {
 				if cell, ok := fa.X.(*ssa.Alloc); ok {
-					lb = a.cellField(cell, fa.Field, fn, depth+1)
+					lb = a.cellFieldAt(cell, fa.Field, fn, x, depth+1)
 				}
 			}
 		}
@@ -1210,8 +1335,75 @@ func c08DepthSentinel(c *an.Ctx, tfns []*ssa.Function, g *an.XBGraph, entry *ssa
 			}
 		}
 	}
-	nCalls, nSent := 0, 0
+	// layer counters: phi(start, phi+k)
+	layerStep := func(v ssa.Value) (int64, bool) {
+		ph, ok := v.(*ssa.Phi)
+		if !ok {
+			return 0, false
+		}
+		for _, e := range ph.Edges {
+			if b, ok := e.(*ssa.BinOp); ok && b.Op == token.ADD && b.X == ssa.Value(ph) {
+				if k, isK := an.XBInt64(b.Y); isK && k > 0 {
+					return k, true
+				}
+			}
+		}
+		return 0, false
+	}
+	isLayerCounter := func(v ssa.Value) bool {
+		_, ok := layerStep(v)
+		return ok
+	}
+	// boundEdges: edges on which counter < P (strict) / counter <= P for an int parameter P of fn
+	boundEdges := func(fn *ssa.Function, counter ssa.Value, strict bool) (an.EdgeSet, bool) {
+		any := false
+		es := an.XBEdgesWhere(fn, func(r an.XBRel) bool {
+			x, y, op := r.X, r.Y, r.Op
+			if _, ok := x.(*ssa.Parameter); ok {
+				x, y, op = y, x, an.XBSwap(op)
+			}
+			par, okP := y.(*ssa.Parameter)
+			if !okP || x != counter || !c06IsInt(par.Type()) {
+				return false
+			}
+			if op == token.LSS || op == token.LEQ {
+				any = true
+			}
+			return op == token.LSS || (!strict && op == token.LEQ)
+		})
+		return es, any
+	}
+	onCycle := map[*ssa.Function]bool{}
+	for _, f := range cycle {
+		onCycle[f] = true
+	}
+	// the first layer depth the fresh filler hands to itself (start of its own layer counter)
+	freshStart := -c08NoBound
+	freshStep, freshStrict := int64(0), false
+	for _, f := range cycle {
+		for _, call := range an.AllCalls(f) {
+			t := an.Callee(call).Static
+			if t == nil || !onCycle[t] {
+				continue
+			}
+			for ai, arg := range call.Common().Args {
+				if depthSlots[dslot{t, ai}] && isLayerCounter(arg) {
+					if l := lbA.at(arg, f, call, nil, 0); l < freshStart {
+						freshStart = l
+					}
+					freshStep, _ = layerStep(arg)
+					es, _ := boundEdges(f, arg, true)
+					el, _ := boundEdges(f, arg, false)
+					if len(es) > 0 && len(es) == len(el) {
+						freshStrict = true
+					}
+				}
+			}
+		}
+	}
+	nCalls, nSent, nSib := 0, 0, 0
 	for _, fn := range tfns {
+
 		for _, call := range an.AllCalls(fn) {
 			t := an.Callee(call).Static
 			if t == nil {
@@ -1241,6 +1433,31 @@ func c08DepthSentinel(c *an.Ctx, tfns []*ssa.Function, g *an.XBGraph, entry *ssa
 					continue
 				}
 				lb := lbA.at(arg, fn, call, nil, 0)
+				if !onCycle[fn] && isLayerCounter(arg) && freshStart != -c08NoBound && freshStart > c08NoBound {
+					// sibling agreement: a layer loop outside the fresh filler continues the progression of the fresh
+					// filler's own layer loop; it can never start below the fresh filler's first layer
+					nSib++
+					c.Check(lb >= freshStart && lb != -c08NoBound, "O4", "R-SIB", an.FuncName(fn), "layer-progression-starts>=fresh-filler-start", call.Pos(),
+						"the layer loop of the append path starts at a depth the fresh filler's layer loop also uses",
+						fmt.Sprintf("the layer loop here may hand depth %d to %s, but the fresh filler's own layer loop starts at %d (right after it filled the direct-block layer): after the direct blocks were filled here the next layer must be the first one, otherwise an append builds a different layout than a fresh import of the same data", lb, t.Name(), freshStart))
+					if step, _ := layerStep(arg); freshStep > 0 {
+						c.Check(step == freshStep, "O4", "R-SIB", an.FuncName(fn), "layer-progression-step=fresh-filler-step", call.Pos(),
+							"the layer loop of the append path advances the depth like the fresh filler's layer loop",
+							fmt.Sprintf("the layer loop here advances the depth by %d per layer, the fresh filler by %d: layers are skipped and sub-trees are built deeper than their position allows", step, freshStep))
+					}
+					if es, any := boundEdges(fn, arg, freshStrict); any {
+						// like the fresh filler, the loop may also run unbounded under a negative sentinel of a parameter
+						sent := an.XBEdgesWhere(fn, func(r an.XBRel) bool {
+							_, isP := r.X.(*ssa.Parameter)
+							k, isK := an.XBInt64(r.Y)
+							return isP && isK && k < 0 && r.Op == token.EQL
+						})
+						es = es.Union(sent)
+						c.Check(len(es) > 0 && an.GuardedBy(fn, nil, call, es), "O4", "R-SIB", an.FuncName(fn), "layer-progression-bound-like-fresh-filler", call.Pos(),
+							"the depth-bounded layer loop of the append path stops where the fresh filler's loop stops (counter < maximum depth)",
+							"the layer loop here is bounded by a depth parameter but a layer is filled where the fresh filler's test (counter < maximum depth) does not hold: the refilled sub-tree becomes deeper than its position allows (child dag was too deep)")
+					}
+				}
 				c.Check(lb >= 0 && lb != -c08NoBound, "O6", "R-CMP", an.FuncName(fn), "depth-argument>=0", call.Pos(),
 					"the depth passed to the bounded filler is provably >= 0, so it can never be taken for the unlimited-depth sentinel",
 					"the depth passed to "+t.Name()+" is not provably >= 0 (counter, parameter lifted to its call sites, difference guarded by its test, result of the depth inference): a negative depth would switch the filler into unlimited mode")
@@ -1248,6 +1465,7 @@ func c08DepthSentinel(c *an.Ctx, tfns []*ssa.Function, g *an.XBGraph, entry *ssa
 		}
 	}
 	c.Min("O6 calls of the depth-bounded filler", nCalls, 1)
+	c.Min("O4 layer loops of the append path compared with the fresh filler", nSib, 1)
 	_ = nU
 	_ = nSent
 }
